@@ -434,6 +434,8 @@ class NoneConverter(Converter):  # used for raw_sql() parameters only
 
 class BoolConverter(Converter):
     def validate(converter, val, obj=None):
+        if not isinstance(val, (bool, int_types)): throw(TypeError,
+            'Value type for attribute %s must be bool. Got: %r' % (converter.attr, type(val)))
         return bool(val)
     def sql2py(converter, val):
         return bool(val)
